@@ -351,6 +351,197 @@ def twin_checks(ctx) -> None:
     ctx.extra["twin_checks_for_this_property"] = n
 
 
+_OPT_SCRIPT = r"""
+import json, sys
+sys.path.insert(0, sys.argv[1])
+import htmltools
+from htmltools import HTML, HTMLDependency, HTMLDocument, HTMLTextDocument, Tag, TagList, tags
+from htmltools._jsx import jsx_tag_create
+
+def kind(f):
+    try:
+        r = f()
+        return ["ok", r if isinstance(r, (str, int, bool, list, type(None))) else type(r).__name__]
+    except BaseException as e:
+        return ["err", type(e).__name__]
+
+def reenter():
+    old = sys.displayhook
+    sys.displayhook = lambda v: None
+    try:
+        o, i = Tag("div"), Tag("span")
+        try:
+            with o:
+                with i:
+                    with o:
+                        pass
+        except RuntimeError:
+            return ["raised", sys.displayhook is not None]
+        return ["not raised"]
+    finally:
+        sys.displayhook = old
+
+def partial_iadd():
+    tl = TagList("x")
+    try:
+        tl += ["a", Tag("b"), object()]
+    except TypeError:
+        return [str(c) for c in tl]
+    return "no error"
+
+def dup_text():
+    htmltools.html_dependency_render_mode = "json"
+    try:
+        s = str(TagList(HTMLDependency("a", "1.0")))
+    finally:
+        htmltools.html_dependency_render_mode = "invisible"
+    d = HTMLTextDocument("<p>@@</p>" + s + "<i>" + s + "</i>" + s, deps_replace_pattern="@@")
+    return [x.name for x in d.render()["dependencies"]]
+
+Card = jsx_tag_create("Card", allowedProps=["title"])
+probes = {
+ "C10 item not a dict": lambda: kind(lambda: HTMLDependency("a", "1.0", script=["x.js"])),
+ "C10 item without required key": lambda: kind(lambda: HTMLDependency("a", "1.0", stylesheet=[{"rel": "x"}])),
+ "C10 meta without content": lambda: kind(lambda: HTMLDependency("a", "1.0", meta=[{"name": "x"}])),
+ "C10 source without href/subdir": lambda: kind(lambda: HTMLDependency("a", "1.0", source={"package": "p"})),
+ "C14 unsupported child (ctor)": lambda: kind(lambda: TagList("a", object())),
+ "C14 unsupported child nested (append)": lambda: kind(lambda: Tag("div").append(["a", [b"bytes"]])),
+ "C14 unsupported child (insert)": lambda: kind(lambda: Tag("div", "x").insert(0, {1, 2})),
+ "C14 += is atomic": partial_iadd,
+ "C15 attribute value of unsupported type": lambda: kind(lambda: Tag("div", x=[1])),
+ "C17 re-entering an active tag": reenter,
+ "C17 invalid displayed value": lambda: kind(lambda: (lambda t: t.__enter__() or sys.displayhook(object()))(Tag("div"))),
+ "C19 non-bool _add_ws": lambda: [kind(lambda v=v: tags.div(_add_ws=v)) for v in (None, 0, 1, "yes", 1.0)],
+ "C20 prop outside the allow-list": lambda: kind(lambda: Card(title="t", onClick="x")),
+ "C20 allowed prop": lambda: kind(lambda: Card(title="t").attrs.get("title")),
+ "C13 one dependency per distinct serialisation": dup_text,
+ "C09 un-expanded object is refused": lambda: kind(lambda: Tag("div", type("T", (), {"tagify": lambda self: Tag("i")})()).get_html_string()),
+ "C11 HTMLDocument render with html attribute": lambda: kind(lambda: HTMLDocument(Tag("p", "x"), lang="en").render()["html"].split("\n")[1]),
+}
+saved = sys.displayhook
+out = {}
+for k, f in probes.items():
+    try:
+        out[k] = f()
+    except BaseException as e:
+        out[k] = ["probe-raised", type(e).__name__]
+    sys.displayhook = saved
+print(json.dumps(out))
+"""
+
+
+def optimised_interpreter_probes(ctx) -> None:
+    """The validation clauses of the properties (what must be REJECTED, what must be atomic, what
+    must be restored) evaluated in child interpreters started normally, with -O and with -OO: the
+    three must agree, and agree with what this process sees.  Behaviour gated on `assert` /
+    `__debug__` is the class this is for; the package itself contains neither."""
+    import json as _json
+    import subprocess
+    from .common import REPO
+    prop = getattr(ctx, "prop", None)
+    results = {}
+    for flag in ("", "-O", "-OO"):
+        cmd = [sys.executable] + ([flag] if flag else []) + ["-c", _OPT_SCRIPT, REPO]
+        try:
+            p = subprocess.run(cmd, capture_output=True, text=True, timeout=120,
+                               env={**os.environ, "PYTHONHASHSEED": "0", "PYTHONOPTIMIZE": ""})
+            results[flag or "default"] = _json.loads(p.stdout.strip().splitlines()[-1]) if p.stdout.strip() else {"_error": p.stderr[-300:]}
+        except Exception as e:  # noqa: BLE001
+            results[flag or "default"] = {"_error": repr(e)}
+    base = results.get("default", {})
+    n = 0
+    for k, v in base.items():
+        if k.startswith("_") or (prop is not None and not k.startswith(prop + " ")):
+            continue
+        n += 1
+        for flag in ("-O", "-OO"):
+            other = results.get(flag, {}).get(k)
+            if other != v:
+                ctx.count(("optimised", k, flag), True, "validation clause under python " + flag)
+                ctx.violation("a validation / atomicity / restoration clause of the property holds in a default interpreter "
+                              "but not in one started with -O / -OO (behaviour gated on assert or __debug__)",
+                              {"probe": k, "interpreter": "python " + flag}, {"impl_output": other, "expected": v})
+    ctx.extra["optimised_interpreter_probes_for_this_property"] = n
+
+
+_FIRST_SCRIPT = r"""
+import json, sys
+sys.path.insert(0, sys.argv[1])
+import htmltools
+from htmltools import HTML, HTMLDependency, HTMLDocument, MetadataNode, Tag, TagList, tags, css, head_content, html_escape
+first = sys.argv[2]
+dep = lambda: HTMLDependency("d", "1.0", source={"href": "https://x/y"}, script={"src": "a b.js"}, head="<meta name='m'>")
+FIRST = {
+ "nothing": lambda: None,
+ "text escape": lambda: html_escape("a<b"),
+ "attribute escape": lambda: html_escape('a"b', attr=True),
+ "text leaf": lambda: str(Tag("p", "x<y")),
+ "attribute only": lambda: str(Tag("p", title='q"')),
+ "script": lambda: str(Tag("script", "a<b", "c&")),
+ "inline tag": lambda: Tag("span", "x", _add_ws=False).get_html_string(3, ""),
+ "document": lambda: HTMLDocument(Tag("p", dep()), lang="en").render(),
+ "json mode": lambda: (setattr(htmltools, "html_dependency_render_mode", "json"), str(Tag("p", dep())), setattr(htmltools, "html_dependency_render_mode", "invisible")),
+ "head_content": lambda: head_content(Tag("title", "t")).name,
+ "class helpers": lambda: str(Tag("i", class_=HTML("a")).add_class("b<").add_style("c:d;")),
+}
+try:
+    FIRST[first]()
+except BaseException as e:
+    pass
+def safe(f):
+    try:
+        return f()
+    except BaseException as e:
+        return "raised " + type(e).__name__
+battery = [
+ lambda: str(Tag("div", "a<b", Tag("span", "c&", _add_ws=False), title='say "hi"\n', id="x'y")),
+ lambda: TagList("a<", HTML("<b>"), Tag("p", "x>")).get_html_string(1, "\r\n"),
+ lambda: str(Tag("script", "a<b", HTML("c&d"))) + str(Tag("style", "x>y")),
+ lambda: str(Tag("p", {"class": 'a"'}, class_=HTML("b&"))),
+ lambda: HTMLDocument(Tag("div", dep(), "t<"), lang="en").render(lib_prefix=None, include_version=False)["html"],
+ lambda: [d.name for d in Tag("div", dep(), HTMLDependency("d", "2.0"), MetadataNode()).render()["dependencies"]],
+ lambda: head_content(Tag("title", "T<")).name,
+ lambda: css(font_size="1px", backgroundColor='u"v'),
+ lambda: str(HTML("<b>") + "p<") + str("q<" + HTML("<i>")),
+ lambda: str(Tag("i", class_="a").add_class("b", prepend=True).add_style("c:d;")),
+ lambda: [str(c) for c in TagList("a", [1, None, ("b", [2.5])], HTML("h"))],
+ lambda: str(tags.ul(tags.li("x"), tags.li(tags.b("y")))),
+]
+print(json.dumps([safe(f) for f in battery]))
+"""
+
+
+def first_use_probes(ctx) -> None:
+    """A fixed battery of computations run in fresh interpreters that differ only in the very
+    FIRST thing they do with the library (escape text, escape an attribute, render a script, a
+    document, json mode, ...): the battery must give the same results in all of them.  Lazily
+    initialised module state that depends on the first use is the class this is for."""
+    import json as _json
+    import subprocess
+    from .common import REPO
+    firsts = ["nothing", "text escape", "attribute escape", "text leaf", "attribute only", "script", "inline tag",
+              "document", "json mode", "head_content", "class helpers"]
+    outs = {}
+    for fst in firsts:
+        try:
+            p = subprocess.run([sys.executable, "-c", _FIRST_SCRIPT, REPO, fst], capture_output=True, text=True, timeout=120,
+                               env={**os.environ, "PYTHONHASHSEED": "0"})
+            outs[fst] = _json.loads(p.stdout.strip().splitlines()[-1]) if p.stdout.strip() else ["no output", p.stderr[-200:]]
+        except Exception as e:  # noqa: BLE001
+            outs[fst] = ["harness", repr(e)]
+    base = outs["nothing"]
+    for fst in firsts[1:]:
+        if outs[fst] != base:
+            idx = next((i for i, (a, b) in enumerate(zip(outs[fst], base)) if a != b), None)
+            ctx.count(("first-use", fst), True, "first use of the library in a fresh interpreter")
+            ctx.violation("results depend on what the process did FIRST with the library (state initialised lazily on first "
+                          "use): the same computation gives different results in two fresh interpreters",
+                          {"first_operation": fst, "battery_item": idx},
+                          {"impl_output": outs[fst][idx] if idx is not None and idx < len(outs[fst]) else outs[fst],
+                           "expected": base[idx] if idx is not None and idx < len(base) else base})
+    ctx.extra["first_use_variants"] = len(firsts)
+
+
 def prelude(ctx=None) -> int:
     """Runs the fault groups; after each group the probes tagged with the check's property are
     re-evaluated and must equal what they gave before any fault.  Returns the number of
@@ -366,6 +557,8 @@ def prelude(ctx=None) -> int:
     if ctx is not None and not getattr(ctx, "_twins_done", False):
         ctx._twins_done = True
         twin_checks(ctx)
+        optimised_interpreter_probes(ctx)
+        first_use_probes(ctx)
     probes = [(name, th) for props, name, th in _probes() if prop is None or prop in props]
     base = [(name, _quiet(th)) for name, th in probes]
     for gname, g in _fault_groups():
